@@ -431,8 +431,16 @@ fn write_std(
 ) -> WriteResult {
     let start_pos = f.pos()?;
 
-    f.write_u16(std.objects.len() as u16)?;
-    f.write_u16(std.objects.values().map(|x| x.quads.len()).sum::<usize>() as u16)?;
+    let num_quads = std.objects.values().map(|x| x.quads.len()).sum::<usize>();
+    let (num_objects, num_quads) = match (u16::try_from(std.objects.len()), u16::try_from(num_quads)) {
+        (Ok(num_objects), Ok(num_quads)) => (num_objects, num_quads),
+        _ => return Err(emitter.emit(error!(
+            "too many objects or quads! ({} objects, {} quads; the format allows {} of each)",
+            std.objects.len(), num_quads, u16::MAX,
+        ))),
+    };
+    f.write_u16(num_objects)?;
+    f.write_u16(num_quads)?;
 
     let instances_offset_pos = f.pos()?;
     f.write_u32(0)?;
